@@ -53,6 +53,9 @@ SHARDS = 16          # 2^28 float32 bit patterns each
 
 def enumerate_cases(tier, seed):
   cases = fp.configs(6 if tier == "quick" else 8)
+  for cfg in fp.configs(4 if tier == "quick" else 6):
+    if cfg.get("alpha") in (None, 1.0) or "alpha" not in cfg:
+      cases.append(dict(cfg, stoch_inf=True))
   # histories on ONE quantizer object: the documented modifiable attribute `symmetric` (and the layer hook
   # _set_trainable_parameter, which switches alpha=None to 'auto_po2' and symmetric on) changed after the object has
   # already been called; the object must then behave exactly like a fresh quantizer built with the final settings
@@ -228,7 +231,12 @@ def run_case(cfg):
                    "what": "%s %s: %s" % (cfg["cls"], clause, what),
                    "detail": dict(cfg=cfg, **detail)})
 
-  q = fp.make(cfg)
+  if cfg.get("stoch_inf"):
+    # use_stochastic_rounding=True in the INFERENCE phase: rounding is deterministic there and every clause holds unchanged
+    tags = (tags + ":" if tags else "") + "stochastic-inference"
+    q = fp.make(cfg, use_stochastic_rounding=True)
+  else:
+    q = fp.make(cfg)
   y = np.asarray(q(tf.constant(x)), dtype=np.float32)
   y64 = y.astype(np.float64)
   x64 = x.astype(np.float64)
